@@ -2,12 +2,31 @@
 mod bridge;
 mod dev;
 mod engine;
+mod hist;
 mod model;
+mod oracle;
+mod pexec;
 mod props;
 mod refmodel;
 mod structs;
+mod table;
+mod wexec;
 
 use engine::Tier;
+use serde_json::Value;
+
+type CheckFn = fn(Tier) -> i32;
+type ReplayFn = fn(&Value) -> Vec<(String, String)>;
+
+fn registry() -> Vec<(&'static str, CheckFn, ReplayFn)> {
+    use props::*;
+    vec![
+        ("C01", |t| c01_c02::check(c01_c02::Which::C01, t), |v| c01_c02::replay(c01_c02::Which::C01, v)),
+        ("C02", |t| c01_c02::check(c01_c02::Which::C02, t), |v| c01_c02::replay(c01_c02::Which::C02, v)),
+        ("C09", c09::check, c09::replay),
+        ("C10", c10::check, c10::replay),
+    ]
+}
 
 fn usage() -> ! {
     eprintln!("usage: vcheck <C01..C19> quick|thorough | vcheck replay <file>");
@@ -28,12 +47,12 @@ fn main() {
         "thorough" => Tier::Thorough,
         _ => usage(),
     };
-    let code = match args[1].as_str() {
-        "C01" => props::c01_c02::check(props::c01_c02::Which::C01, tier),
-        "C02" => props::c01_c02::check(props::c01_c02::Which::C02, tier),
-        _ => usage(),
-    };
-    std::process::exit(code);
+    for (id, check, _) in registry() {
+        if id == args[1] {
+            std::process::exit(check(tier));
+        }
+    }
+    usage();
 }
 
 fn replay(path: &str) -> i32 {
@@ -44,19 +63,31 @@ fn replay(path: &str) -> i32 {
             return 2;
         }
     };
-    let v: serde_json::Value = match serde_json::from_str(&s) {
+    let v: Value = match serde_json::from_str(&s) {
         Ok(v) => v,
         Err(e) => {
             eprintln!("vcheck: {}: {}", path, e);
             return 2;
         }
     };
-    let prop = v.get("property").and_then(|x| x.as_str()).unwrap_or("");
-    let case = v.get("case").cloned().unwrap_or(serde_json::Value::Null);
-    let verdicts = match prop {
-        "C01" => props::c01_c02::replay(props::c01_c02::Which::C01, &case),
-        "C02" => props::c01_c02::replay(props::c01_c02::Which::C02, &case),
-        _ => {
+    let prop = v.get("property").and_then(|x| x.as_str()).unwrap_or("").to_string();
+    let case = v.get("case").cloned().unwrap_or(Value::Null);
+    let mut verdicts = None;
+    for (id, _, rp) in registry() {
+        if id == prop {
+            // run twice: the same case must give the same verdict (DESIGN 2.2)
+            let a = rp(&case);
+            let b = rp(&case);
+            if a != b {
+                eprintln!("vcheck: replay is not deterministic: {:?} vs {:?}", a, b);
+                return 2;
+            }
+            verdicts = Some(a);
+        }
+    }
+    let verdicts = match verdicts {
+        Some(v) => v,
+        None => {
             eprintln!("vcheck: no replay for property {:?}", prop);
             return 2;
         }
